@@ -338,20 +338,33 @@ func (i *interpreter) concSize(x value, site string) int64 {
 		i.allocEvent(site, -1)
 		panic(rtErr("makeslice: len out of range"))
 	}
-	small := fmt.Sprintf("(bvule %s %s)", s.t, bvLit(uint64(i.smallSize()), w))
+	smallN := i.smallSize()
+	if w <= 8 {
+		smallN = 1 << 9 // a byte-sized size is always enumerated
+	}
+	if w < 64 && smallN >= int64(1)<<uint(w) {
+		return int64(i.concretizeAux(s, site))
+	}
+	small := fmt.Sprintf("(bvule %s %s)", s.t, bvLit(uint64(smallN), w))
 	if i.decide(small, site+":small") {
 		return int64(i.concretizeAux(s, site))
 	}
-	// mid range
-	if b := i.job().allocBudget; b > 0 {
-		// is any size above the budget feasible?
+	// mid range: above the allocation budget is an allocation-monitor event;
+	// between smallN and the budget one representative stands for all sizes
+	// (the loop/fill of that length behaves uniformly).
+	if b := i.job().allocBudget; b > 0 && (w >= 63 || b < int64(1)<<uint(w)-1) {
 		ab := fmt.Sprintf("(bvugt %s %s)", s.t, bvLit(uint64(b), w))
 		if i.decide(ab, site+":overbudget") {
 			i.allocEvent(site, b+1)
 			panic(engineAbort{kind: abortDone, msg: "allocation above budget"})
 		}
 	}
-	panic(engineAbort{kind: abortTruncated, msg: "symbolic size in mid range at " + site})
+	rep := uint64(smallN + 1)
+	if !i.decide(app("=", s.t, bvLit(rep, w)), site+":midrep") {
+		i.job().note(fmt.Sprintf("sizes in (%d, budget] at %s represented by %d", smallN, site, rep))
+		panic(engineAbort{kind: abortDone, msg: "mid-range size represented elsewhere"})
+	}
+	return int64(rep)
 }
 
 func (i *interpreter) smallSize() int64 {
